@@ -169,6 +169,28 @@ theorem C18_no_rng_fallback_depends_on_entropy :
       (run (prog .sampleMvnNoRng a) ⟨g, γ, ω⟩).out ≠ (run (prog .sampleMvnNoRng a) ⟨g, γ, ω'⟩).out := by
   refine ⟨{}, fun _ => 0, fun _ => 0, fun i => i, fun i => i + 1, ?_⟩; decide
 
+/-! ### `sampling.sample` installs this call's generator unconditionally -/
+
+/-- Whatever generator the model object held before (constructor argument, earlier `set_rng`,
+an earlier call of `sample`), every draw of every call of `sampling.sample` comes from the
+generator created by THAT call: training is a function of the seed given to `sample`, not of a
+generator the model happened to hold, and calling `sample` again on the same object is the same as
+calling it on a fresh one. -/
+theorem C18_sample_installs_generator (held : Option GenId) (gens : List GenId) :
+    sampleCalls held gens = gens.map some ∧ sampleCalls held gens = sampleCalls none gens := by
+  have h : ∀ (held : Option GenId), sampleCalls held gens = gens.map some := by
+    induction gens with
+    | nil => intro _; rfl
+    | cons g gs ih => intro held; simp [sampleCalls, sampleCall, installRng, stepGen, ih]
+  exact ⟨h held, by rw [h held, h none]⟩
+
+/-- the conditional variant (`if model.rng is None: model.set_rng(rng)`) does NOT have the
+property: a model that holds generator 7 keeps drawing from it, and a second call draws from the
+first call's generator -/
+theorem C18_conditional_install_interferes :
+    sampleCallsIfNone (some 7) [1] = [some 7] ∧ sampleCallsIfNone none [1, 2] = [some 1, some 1] := by
+  decide
+
 /-! ### non-vacuity -/
 
 /-- the claimed operations do draw: e.g. the greedy cover with 2 samples and one completion
